@@ -432,6 +432,42 @@ def search_operator(chk, r, n, max_pto):
         chk.search_case("tmc_run_vs_published_formula", ok, what=f"{name} TMC={mode} ({MODES[mode]}) {process} {fns} NfFF={nfff} PTO={p['pto']} x={p['x']:.4g} Q2={p['Q2']} M={p['MP']} degree={p['degree']} log={p['is_log']} [{p['tag']}]: operator differs from the published formula on the uncorrected operators", data=case, sample={k: v for k, v in case.items() if k != "grid"} if kind == "F3" else None, nontrivial=scale > 0)
 
 
+def search_shared_requests(chk, r, n):
+    """the corrected result of a point does not depend on how the request is written: one list object
+    of kinematics handed to two observables, and one point object listed twice, give what each
+    observable gives on its own from fresh dicts (the corrected object must not write x -> xi into
+    the request it was built from)"""
+    import copy
+
+    import yadism
+
+    grid = [float(v) for v in cards.default_grid(8, 0.02)]
+    okw = dict(interpolation_xgrid=grid, interpolation_polynomial_degree=3)
+    for i in range(n):
+        mode = [2, 1, 3][i % 3]
+        kinds = [("F2", "FL"), ("FL", "F2"), ("F2", "F3")][i % 3]
+        process = "NC"
+        pt = dict(x=float(r.choice([0.3, 0.5])), Q2=float(r.choice([3.0, 6.0])))
+        kins = [pt, dict(x=0.4, Q2=pt["Q2"]), pt]  # the first point object again at the end
+        names = [f"{k}_light" for k in kinds]
+        th = cards.theory(PTO=1, TMC=mode)
+        before = copy.deepcopy(kins)
+        problems = []
+        try:
+            big = yadism.run_yadism(th, cards.obs({nm: kins for nm in names}, prDIS=process, **okw))
+            for nm in names:
+                alone = yadism.run_yadism(th, cards.obs({nm: copy.deepcopy(before)}, prDIS=process, **okw))[nm]
+                for j, (a, b) in enumerate(zip(big[nm], alone)):
+                    if not realrun.identical(a, b) or float(a.x) != before[j]["x"]:
+                        problems.append(f"{nm}[{j}] (x={before[j]['x']}) differs from the run of {nm} alone" + (f", labelled x={float(a.x)}" if float(a.x) != before[j]["x"] else ""))
+        except Exception as e:  # noqa
+            problems.append(f"{type(e).__name__}: {e}"[:160])
+        if kins != before:
+            problems.append(f"the request was rewritten: {kins}")
+        d = dict(TMC=mode, observables=names, points=before, problems=problems[:6])
+        chk.search_case("shared_request_objects", not problems, what=f"TMC={mode} {names} sharing one list of points: " + "; ".join(problems[:3]), data=d, sample=d if i == 0 else None, nontrivial=True)
+
+
 def search_zero_mass(chk, r, n):
     """the correction vanishes continuously as M -> 0 and is absent at M = 0"""
     import yadism
@@ -473,6 +509,7 @@ def run(tier):
     search_weights(chk, r, 24 if thorough else 6)
     search_operator(chk, r, 96 if thorough else 24, 1)
     search_zero_mass(chk, r, 12 if thorough else 4)
+    search_shared_requests(chk, r, 6 if thorough else 3)
     chk.assumptions += [
         "the prefactors and the symbols of every formula are regenerated from tmc.py each run and validated against the real classes (marker structure functions, real interpolator, real kernel integration)",
         "the loop of _convolve_FX and the request guards are modelled by hand (Model/TMC.lean) and tied by the convolve_FX_loop / tmc_rejection correspondences",
